@@ -89,7 +89,7 @@ func c01Gen(rt *rapid.T) sPlan {
 			nf := rapid.IntRange(1, 2).Draw(rt, "nfaulty")
 			for k := 0; k < nf && k < len(sb.Signers); k++ {
 				sb.Faulty = append(sb.Faulty, sFault{Who: sb.Signers[rapid.IntRange(0, len(sb.Signers)-1).Draw(rt, "who")],
-					Kind: rapid.SampledFrom([]string{"junk", "flip", "swapped", "index", "empty"}).Draw(rt, "faultKind")})
+					Kind: rapid.SampledFrom([]string{"junk", "flip", "swapped", "index", "empty", "omit", "omit-first"}).Draw(rt, "faultKind")})
 			}
 		}
 		sb.Tape = rapid.SliceOfN(rapid.IntRange(0, 1000), 0, 30).Draw(rt, "tape")
